@@ -42,7 +42,7 @@ import (
 
 type c04Job struct {
 	client  int    // index into the world's client list (2k: many-phantom, 2k+1: alone)
-	mode    string // script | pipe
+	mode    string // script | pipe | tcp (a loopback TCP connection, its station end handed to the handler raw)
 	early   int    // application bytes sent right behind the flight (same stream position)
 	later   []int  // sizes of further application writes
 	cuts    []int  // cut positions in flight++early (negative: from the end of the flight)
@@ -188,6 +188,7 @@ type c04Result struct {
 	handlerErr string
 	clientErr  string
 	hung       bool // the handler goroutine never returned (it is abandoned; the world is not used again)
+	raw        bool // the handler was given the raw *net.TCPConn: no call log, only MarkActive is observed
 }
 
 // c04AwaitHandler waits for the handler to return after the client side is gone. A handler that has not
@@ -307,7 +308,7 @@ func c04RunScript(w *c34World, reg *c34Reg, j *c04Job, app []byte) (*c04Result, 
 func c04Collect(w *c34World, reg *c34Reg, run *c34Run, res *c04Result) {
 	res.canon = w.canon(run)
 	expect := 0
-	if res.canon.found >= 0 {
+	if res.canon.found >= 0 || res.canon.marked >= 0 {
 		expect = 1
 	}
 	ccs := w.covert.take(expect, 5*time.Second)
@@ -327,8 +328,23 @@ func c04RunPipe(w *c34World, reg *c34Reg, j *c04Job, app []byte) (*c04Result, er
 	if err != nil {
 		return nil, err
 	}
-	a, b := net.Pipe()
+	var a, b net.Conn
+	if j.mode == "tcp" {
+		// the type the station's accept loop passes: code behind a `.(*net.TCPConn)` assertion in the handler,
+		// the transports or the relay runs only for it
+		if a, b, err = w.tcpPair(); err != nil {
+			return nil, err
+		}
+		res.raw = true
+	} else {
+		a, b = net.Pipe()
+	}
 	conn := newC34Real(b, c34Peer(50123))
+	var hc net.Conn = conn
+	if res.raw {
+		hc = b
+		defer b.Close() // what handleNewConn's deferred Close does
+	}
 	// The handler — and with it the station's real 5-10 s classification deadline — starts when the first
 	// byte is about to go on the wire: an obfs4 client may first have to draw hundreds of handshakes
 	// until one has the wanted length, which must not eat into that deadline.
@@ -339,7 +355,7 @@ func c04RunPipe(w *c34World, reg *c34Reg, j *c04Job, app []byte) (*c04Result, er
 		startOnce.Do(func() {
 			cj.VerifC34ResetUnused(w.rm, reg.reg)
 			_ = a.SetDeadline(time.Now().Add(20 * time.Second))
-			run, done = w.start(conn, reg.phantom, "ok")
+			run, done = w.startOn(hc, conn, reg.phantom, "ok")
 		})
 	}
 	seg := &c04SegConn{Conn: a, cuts: j.cuts, natural: j.natural, delay: time.Duration(j.delayUs) * time.Microsecond, hsMin: j.hsMin, hsMax: j.hsMax, onFirst: startHandler}
@@ -430,12 +446,16 @@ func c04Check(out *vlib.Out, w *c34World, reg *c34Reg, j *c04Job, app []byte, re
 		fail("handler", res.handlerErr)
 		return
 	}
-	if res.canon.found < 0 {
+	found := res.canon.found
+	if res.raw {
+		found = res.canon.marked // no call log on a raw connection: the registration that was marked active
+	}
+	if found < 0 {
 		fail("not-recognised", "no transport found the client's registration")
 		return
 	}
-	if res.canon.found != reg.idx {
-		fail("wrong-registration", fmt.Sprintf("matched registration %d, the client's is %d", res.canon.found, reg.idx))
+	if found != reg.idx {
+		fail("wrong-registration", fmt.Sprintf("matched registration %d, the client's is %d", found, reg.idx))
 		return
 	}
 	if !res.exists || !res.used {
@@ -509,7 +529,7 @@ func c04RunJob(out *vlib.Out, w *c34World, clients []*c34Reg, j *c04Job) error {
 			out.Count("slow-case(>3s)")
 		}
 	}()
-	if j.mode == "pipe" {
+	if j.mode == "pipe" || j.mode == "tcp" {
 		res, err = c04RunPipe(w, reg, j, app)
 	} else {
 		res, err = c04RunScript(w, reg, j, app)
@@ -522,7 +542,9 @@ func c04RunJob(out *vlib.Out, w *c34World, clients []*c34Reg, j *c04Job) error {
 		return err
 	}
 	c04Check(out, w, reg, j, app, res)
-	out.Case(res.canon.modelLine, res.canon.implOut, res.canon.found >= 0)
+	if !res.raw {
+		out.Case(res.canon.modelLine, res.canon.implOut, res.canon.found >= 0)
+	}
 	out.Count("mode:" + j.mode)
 	out.Count("transport:" + reg.tname())
 	if reg.tt == pb.TransportType_Prefix {
@@ -542,7 +564,7 @@ func c04RunJob(out *vlib.Out, w *c34World, clients []*c34Reg, j *c04Job) error {
 	} else {
 		out.Count("phantom:alone")
 	}
-	if res.canon.found >= 0 {
+	if res.canon.found >= 0 || (res.raw && res.canon.marked >= 0) {
 		out.Count("branch:found")
 	} else {
 		out.Count("branch:not-found")
@@ -585,10 +607,14 @@ func TestVerifC04(t *testing.T) {
 				var err error
 				if w, err = newC34World(fmt.Sprintf("C04/%d", wi), fmt.Sprintf("127.0.0.%d", 1+wi)); err != nil {
 					errs <- err
+					for range jobs { // the run fails; do not block the generator
+					}
 					return
 				}
 				if clients, err = w.populate(); err != nil {
 					errs <- err
+					for range jobs {
+					}
 					return
 				}
 			}
@@ -664,6 +690,9 @@ func TestVerifC04(t *testing.T) {
 		emit(c04Job{client: ci, mode: "script", early: 4096 - fl, natural: true})           // stream = exactly one read buffer
 		emit(c04Job{client: ci, mode: "pipe", early: 13, cuts: []int{fl / 2}, delayUs: 200}) // paced, real connection
 		emit(c04Job{client: ci, mode: "pipe", early: 65536, natural: true})
+		emit(c04Job{client: ci, mode: "tcp", early: 13, cuts: []int{fl / 2}, delayUs: 200}) // raw *net.TCPConn
+		emit(c04Job{client: ci, mode: "tcp", early: 65536, natural: true})
+		emit(c04Job{client: ci, mode: "tcp", early: 0, later: []int{5, 0, 7}, cuts: []int{1, fl - 1}})
 		all := make([]int, 0, fl)
 		for c := 1; c <= fl; c++ {
 			all = append(all, c)
@@ -675,6 +704,8 @@ func TestVerifC04(t *testing.T) {
 		emit(c04Job{client: ci, mode: "pipe", early: 0})
 		emit(c04Job{client: ci, mode: "pipe", early: 65536})
 		emit(c04Job{client: ci, mode: "pipe", early: 100, later: []int{1, 4096, 50}, cuts: []int{32, 64, -32, -16}, delayUs: 100})
+		emit(c04Job{client: ci, mode: "tcp", early: 13})
+		emit(c04Job{client: ci, mode: "tcp", early: 100, later: []int{1, 4096, 50}, cuts: []int{32, 64, -32, -16}, delayUs: 100})
 	}
 	// ---- every 1-cut of the first flight: min and every prefix id x flush policy x port mode x both phantom kinds
 	for _, ci := range append(append([]int(nil), minC...), prefC...) {
@@ -726,7 +757,7 @@ func TestVerifC04(t *testing.T) {
 			j.later = append(j.later, []int{0, 1, 100, 5000}[r.Intn(4)])
 		}
 		if r.Chance(1, 6) {
-			j.mode = "pipe"
+			j.mode = []string{"pipe", "pipe", "tcp"}[r.Intn(3)]
 			j.delayUs = []int{0, 0, 50, 300}[r.Intn(4)]
 			if j.early > 20000 {
 				j.early = 20000
@@ -778,6 +809,9 @@ func TestVerifC04(t *testing.T) {
 		}
 		if r.Chance(1, 50) {
 			j.early = 65536
+		}
+		if r.Chance(1, 6) {
+			j.mode = "tcp"
 		}
 		emit(j)
 	}
